@@ -137,6 +137,9 @@ func (c *CheckCtx) addFunctionUnits(filter func(con *Contract) bool) {
 			if p == modPath+"/internal/scanner" && k == "(*Lexer).Lex" {
 				continue // the generated machine is verified by the scanner engine (addScan), not by E-VC
 			}
+			if k == "(*yyParserImpl).Parse" {
+				continue // the generated LR driver is verified by the driver engine (addDrv), not by E-VC
+			}
 			fn := c.W.lookupFunc(p, k)
 			if fn == nil {
 				c.Extra = append(c.Extra, &Obligation{Name: shortPkg(p) + "." + k + "/contract/function-exists", Class: "contract", Status: "sat",
